@@ -381,6 +381,7 @@ func (c *cluster) addNode(node *Node) error {
 	if !c.addNodeBasicSorted(node) {
 		return nil
 	}
+	verifResizeEvent(c, "members", c.nodeIDs())
 
 	// add to topology
 	if c.Topology == nil {
@@ -400,6 +401,7 @@ func (c *cluster) addNode(node *Node) error {
 func (c *cluster) removeNode(nodeID string) error {
 	// remove from cluster
 	c.removeNodeBasicSorted(nodeID)
+	verifResizeEvent(c, "members", c.nodeIDs())
 
 	// remove from topology
 	if c.Topology == nil {
@@ -460,6 +462,7 @@ func (c *cluster) unprotectedSetState(state string) {
 	}
 
 	c.state = state
+	verifResizeEvent(c, "state", state)
 
 	if state == ClusterStateResizing {
 		c.abortAntiEntropy()
@@ -1036,6 +1039,7 @@ func (c *cluster) allNodesReady() (ret bool) {
 }
 
 func (c *cluster) handleNodeAction(nodeAction nodeAction) error {
+	verifResizeEvent(c, "gate:action", nodeAction.action, nodeAction.node.ID)
 	c.mu.Lock()
 	j, err := c.unprotectedGenerateResizeJob(nodeAction)
 	c.mu.Unlock()
@@ -1057,6 +1061,7 @@ func (c *cluster) handleNodeAction(nodeAction nodeAction) error {
 
 	// Wait for the resizeJob to finish or be aborted.
 	c.logger.Printf("wait for jobResult")
+	verifResizeEvent(c, "gate:wait", j.ID)
 	jobResult := <-j.result
 
 	// If j.run() returned an error the job could not be started on every
@@ -1066,6 +1071,7 @@ func (c *cluster) handleNodeAction(nodeAction nodeAction) error {
 		jobResult = resizeJobStateAborted
 	}
 
+	verifResizeEvent(c, "gate:result", j.ID, jobResult)
 	c.logger.Printf("received jobResult: %s", jobResult)
 	switch jobResult {
 	case resizeJobStateDone:
@@ -1077,6 +1083,7 @@ func (c *cluster) handleNodeAction(nodeAction nodeAction) error {
 		if !j.isDone() {
 			return nil
 		}
+		verifResizeEvent(c, "gate:member", j.ID)
 		// Add/remove uri to/from the cluster.
 		if j.action == resizeJobActionRemove {
 			c.mu.Lock()
@@ -1134,6 +1141,7 @@ func (c *cluster) listenForJoins() {
 
 		for {
 
+			verifResizeEvent(c, "gate:loop")
 			// Handle all pending joins before changing state back to NORMAL.
 			select {
 			case nodeAction := <-c.joiningLeavingNodes:
@@ -1155,6 +1163,7 @@ func (c *cluster) listenForJoins() {
 				}
 			}
 
+			verifResizeEvent(c, "gate:block")
 			// Wait for a joining host or a close.
 			select {
 			case <-c.closing:
@@ -1189,9 +1198,11 @@ func (c *cluster) unprotectedGenerateResizeJob(nodeAction nodeAction) (*resizeJo
 
 	// Set job as currentJob.
 	if c.currentJob != nil {
+		verifResizeEvent(c, "job_reject", j.ID)
 		return nil, fmt.Errorf("there is currently a resize job running")
 	}
 	c.currentJob = j
+	verifResizeEvent(c, "job_start", j.ID, j.action, nodeAction.node.ID)
 
 	return j, nil
 }
@@ -1271,6 +1282,7 @@ func (c *cluster) unprotectedCompleteCurrentJob(state string) error {
 		return ErrResizeNotRunning
 	}
 	c.currentJob.setState(state)
+	verifResizeEvent(c, "job_end", c.currentJob.ID, state)
 	c.currentJob = nil
 	return nil
 }
@@ -1289,6 +1301,7 @@ func (c *cluster) abortCurrentJob() error {
 	}
 	c.currentJob.setState(resizeJobStateAborted)
 	c.currentJob.sendResult(resizeJobStateAborted)
+	verifResizeEvent(c, "abort", c.currentJob.ID)
 	return nil
 }
 
@@ -1426,11 +1439,13 @@ func (c *cluster) markResizeInstructionComplete(complete *ResizeInstructionCompl
 	// Abort the job if an error exists in the complete object.
 	if complete.Error != "" {
 		j.sendResult(resizeJobStateAborted)
+		verifResizeEvent(c, "complete_err", j.ID, complete.Node.ID)
 		return errors.New(complete.Error)
 	}
 
 	// Mark host complete.
 	j.IDs[complete.Node.ID] = true
+	verifResizeEvent(c, "complete_ok", j.ID, complete.Node.ID)
 
 	if !j.nodesArePending() {
 		j.sendResult(resizeJobStateDone)
@@ -1502,7 +1517,9 @@ func newResizeJob(existingNodes []*Node, node *Node, action string) *resizeJob {
 func (j *resizeJob) sendResult(state string) {
 	select {
 	case j.result <- state:
+		verifResizeEvent(nil, "result_send", j.ID, state)
 	default:
+		verifResizeEvent(nil, "result_drop", j.ID, state)
 	}
 }
 
@@ -1516,6 +1533,7 @@ func (j *resizeJob) setState(state string) {
 
 // run distributes ResizeInstructions.
 func (j *resizeJob) run() error {
+	verifResizeEvent(nil, "gate:run", j.ID)
 	j.Logger.Printf("run resizeJob")
 	// Set job state to RUNNING.
 	j.setState(resizeJobStateRunning)
@@ -1879,6 +1897,7 @@ func (c *cluster) nodeJoin(node *Node) error {
 		return errors.Wrap(err, "broadcasting state")
 	}
 	c.joiningLeavingNodes <- nodeAction{node, resizeJobActionAdd}
+	verifResizeEvent(c, "enqueue", resizeJobActionAdd, node.ID)
 
 	return nil
 }
@@ -1933,6 +1952,7 @@ func (c *cluster) nodeLeave(nodeID string) error {
 		return errors.Wrap(err, "broadcasting state")
 	}
 	c.joiningLeavingNodes <- nodeAction{node: &Node{ID: nodeID}, action: resizeJobActionRemove}
+	verifResizeEvent(c, "enqueue", resizeJobActionRemove, nodeID)
 
 	return nil
 }
